@@ -132,11 +132,12 @@ const (
 	zz15Put    = iota // put k v
 	zz15Del           // delete k
 	zz15Emit          // AddNotify(v) + PutMerkleVal(k‖v)
-	zz15Fail          // return an error
 	zz15Get           // read k, remember what was seen
+	zz15Fail          // return an error
 	zz15Call          // NativeCall(self, "run", [put k v; emit k v]) and propagate its error
 	zz15CallF         // NativeCall(self, "run", [put k v; emit k v; fail]) and propagate its error
-	// ordinary steps draw from the first OPS (spec parameter: 4 = without reads, 5 = with reads) operations;
+	// ordinary steps draw from the first OPS (spec parameter: 4 = never fail, 5 = may fail) operations; with
+	// TAILFAIL=1 every script additionally ends in "fail" or not (so a failing transaction always did something first);
 	// the two call ops are used by the nested-call harness only
 )
 
@@ -304,6 +305,9 @@ func zz15Script(steps, ops int) []byte {
 		}
 		s = append(s, op, k, zzsym.U8("v"))
 	}
+	if zzsym.Param("TAILFAIL") == 1 && zzsym.Choose("tailfail", 2) == 1 {
+		s = append(s, zz15Fail, 0, 0)
+	}
 	return s
 }
 
@@ -417,7 +421,7 @@ func zz15Block() {
 // N transactions of S scripted steps each.
 func ZZ_C15_BlockAtomicity() { zz15Block() }
 
-// same body: more transactions, one step each (+ a trailing fail/ok decided by the step itself)
+// same body: more transactions, one non-failing step each, then fail or not
 func ZZ_C15_ManyTransactions() { zz15Block() }
 
 // same body: one long transaction (failure injected at every position of the script)
